@@ -1240,6 +1240,16 @@ impl TransactionalMemory {
         Ok(state.latest_slot().transaction_id)
     }
 
+    // The last committed transaction id together with its data root, read under a single
+    // acquisition of the state lock: a commit can publish a new root between two separate reads
+    pub(crate) fn get_last_committed_transaction(
+        &self,
+    ) -> Result<(TransactionId, Option<BtreeHeader>)> {
+        let state = self.state.lock()?;
+        let slot = state.latest_slot();
+        Ok((slot.transaction_id, slot.user_root))
+    }
+
     pub(crate) fn get_last_durable_transaction_id(&self) -> Result<TransactionId> {
         let state = self.state.lock()?;
         Ok(state.header.primary_slot().transaction_id)
